@@ -11,7 +11,21 @@ pub fn root_fx__entropy_bad(buf: &mut [u8]) {
     use rand::rngs::OsRng;
     OsRng.fill_bytes(buf);
 }
-pub fn root_fx__entropy_good<R: RngCore + CryptoRng>(rng: &mut R, buf: &mut [u8]) {
+pub struct FxRng;
+impl RngCore for FxRng {
+    fn next_u32(&mut self) -> u32 {
+        0
+    }
+    fn next_u64(&mut self) -> u64 {
+        0
+    }
+    fn fill_bytes(&mut self, _d: &mut [u8]) {}
+    fn try_fill_bytes(&mut self, _d: &mut [u8]) -> Result<(), opaque_ke::rand::Error> {
+        Ok(())
+    }
+}
+impl CryptoRng for FxRng {}
+pub fn root_fx__entropy_good(rng: &mut FxRng, buf: &mut [u8]) {
     rng.fill_bytes(buf);
 }
 pub fn root_fx__time_bad() -> u64 {
